@@ -229,8 +229,8 @@ def forbidden_scan(relpath=None):
                      r"native_compute)\b")
     files = coq_closure(relpath) if relpath else glob.glob(os.path.join(coq_dir(), "**/*.v"), recursive=True)
     for p in files:
-        if os.path.basename(p).startswith(("tmp", "dbg", "scratch")):
-            continue   # a worker's scratch file: not part of the development (never committed)
+        if relpath is None and os.path.basename(p).startswith(("tmp", "dbg", "scratch")):
+            continue   # a scratch file outside any property's dependency closure (never committed); inside a closure nothing is skipped
         txt = open(p).read()
         txt = re.sub(r"\(\*.*?\*\)", "", txt, flags=re.S)
         for m in pat.finditer(txt):
